@@ -1876,13 +1876,14 @@ PROFILES = {
         "extra_pct": 20,
         "max_positions": 15,
     },
-    "C17all": {   # thorough: every check position of the target operation
+    "C17all": {   # thorough: every check position of the target operation (up to 120: the cost of a run is bounded by a count)
         "frontends": [("Solver", 4), ("SolverCacheless", 4), ("SolverComposite", 3), ("SolverHybrid", 2), ("SolverReplacement", 2),
                       ("SolverStrings", 1)],
         "length": (4, 18),
         "fault_enum": True,
         "weights": {"branch": 8, "forget": 0, "gc": 0},
         "extra_pct": 20,
+        "max_positions": 120,
     },
     "C17multi": {
         "frontends": [("Solver", 4), ("SolverCacheless", 4), ("SolverComposite", 3), ("SolverHybrid", 2), ("SolverReplacement", 2),
